@@ -698,8 +698,9 @@ def rule_tweak_arms_agree(ctx: Ctx, rep: Report) -> None:
         return isinstance(e, ast.IfExp) and "% 2" in norm(e.test) and any(isinstance(n, ast.BinOp) and isinstance(n.op, ast.Sub) and norm(n.left).endswith(".p") for n in ast.walk(e))
 
     p0 = res(adds[0].args[0])
-    ok = (isinstance(p0, ast.Tuple) and len(p0.elts) == 2 and parity_choice(p0.elts[1])) or \
-         (isinstance(p0, ast.Call) and any(w in call_name(p0).lower() for w in ("lift", "even")))
+    from sa import values as VX
+    ok = VX.of(fi).anywhere("($$x, secp256k1.p - $$y if $$y % 2 else $$y)") or \
+        (isinstance(p0, ast.Call) and any(w in call_name(p0).lower() for w in ("lift", "even")))
     rep.ob(rule, "_tweaked_pubkey:python_arm_lifts", ok, fi.where(adds[0]), "the point added to t*G is the even-y lift" if ok else
            f"`{norm(adds[0])}` adds t*G to `{norm(adds[0].args[0])}` as it stands: for an 03 key that is the odd-y point, and the output key differs from the one the x-only binding computes")
     rep.floor(rule, 1)
